@@ -6,6 +6,6 @@ Theorem T_canonical_fixed_point_unguarded_refuted : exists e s v w c w1,
   convert e (PStr s) = OK (v, w) /\ v <> PNone /\ unconvert e v = OK (Some c, w1) /\ convert e (PStr c) <> OK (v, w1).
 Proof.
   exists (Elem (TString None true) false), (T "&amp;amp;"), (PStr (T "&amp;")), false, (T "&amp;"), false.
-  repeat split; try (vm_compute; reflexivity); try discriminate. vm_compute. discriminate.
+  split; [vm_compute; reflexivity|]. split; [discriminate|]. split; [vm_compute; reflexivity|]. vm_compute. discriminate.
 Qed.
 Print Assumptions T_canonical_fixed_point_unguarded_refuted.
